@@ -19,7 +19,7 @@ SUBS = [
     dict(name="queue", quick=dict(cases=20000, shards=2, maxsec=25), thorough=dict(cases=75000, shards=2, maxsec=300)),
     dict(name="map", quick=dict(cases=16000, shards=3, maxsec=25), thorough=dict(cases=40000, shards=3, maxsec=300)),
     # the pool sub forks one process per history itself (it must call exit(), the engine's fork mode uses _exit())
-    dict(name="pool", quick=dict(cases=3500, shards=4, maxsec=25), thorough=dict(cases=20000, shards=3, maxsec=300)),
+    dict(name="pool", quick=dict(cases=3500, shards=4, maxsec=25), thorough=dict(cases=12000, shards=3, maxsec=300)),
 ]
 
 
